@@ -49,9 +49,10 @@ KNOWN_DIR = os.path.join(build.VERIF, 'known', 'C29')
 # ------------------------------------------------------------------------------------ dump canonicalisation
 _ID_DEF = re.compile(rb' id="([0-9a-f]{5,16})"')
 _ATTR = re.compile(rb' ([A-Za-z][\w-]*)="([0-9a-f]{5,16})"')
-# attributes that carry text / decimal numbers, never element ids
+# attributes that carry text / decimal numbers, never element ids ('type' is not listed: it is the
+# token class on <token> but a Type id on <derivedFrom>; token classes never look like hex ids)
 _NOT_PTR = {b'str', b'name', b'exprId', b'varId', b'linenr', b'column', b'file', b'originalName', b'macroName',
-            b'intvalue', b'floatvalue', b'strlen', b'value', b'nr', b'cfg', b'access', b'kind', b'type',
+            b'intvalue', b'floatvalue', b'strlen', b'value', b'nr', b'cfg', b'access', b'kind',
             b'valueType-originalTypeName', b'templateArgLineNumber', b'templateArgColumn', b'index',
             b'errorId', b'fileName', b'lineNumber', b'symbolName', b'hash', b'filename', b'tagname'}
 
